@@ -363,6 +363,7 @@ func genC11All(r *rand.Rand, tier string) []Case {
 		for cut := 0; cut < len(tables[v]); cut++ {
 			for _, z := range []bool{false, true} {
 				out = append(out, &c11Any{T: &c11Tbl{Mode: []string{"merge", "compact"}[i%2], Tables: tables, Victim: v, Cut: cut, Zeros: z}})
+				out = append(out, &c11Any{T: &c11Tbl{Mode: []string{"merge", "compact"}[i%2], Tables: tables, Victim: v, Cut: cut, Zeros: z, Seek: true, Mid: []int{0, 1, 5, 9, 14}[(cut+i)%5]}})
 			}
 		}
 	}
